@@ -105,6 +105,9 @@ func (a *Allocation) AddPermission(perms *Permission) {
 	perms.allocation = a
 	a.permissionsLock.Lock()
 	a.permissions[fingerprint] = perms
+	// The timer is armed before anybody else can see the permission: Close stops the timer of
+	// every listed permission and must never find one without a timer.
+	perms.start(perms.timeout)
 	a.permissionsLock.Unlock()
 
 	if a.eventHandler.OnPermissionCreated != nil {
@@ -114,8 +117,6 @@ func (a *Allocation) AddPermission(perms *Permission) {
 				a.RelayAddr, u.IP)
 		}
 	}
-
-	perms.start(perms.timeout)
 }
 
 // RemovePermission removes the net.Addr's fingerprint from the allocation's permissions.
